@@ -41,7 +41,7 @@ def split_case(nums):
 
 class C11(flow.Spec):
     prop = 'C11'
-    props_files = ['theories/Props/C11.v', 'theories/Props/C11_examples.v']
+    props_files = ['theories/Props/C11.v', 'theories/Props/C11_examples.v', 'theories/Props/C11_frag.v', 'theories/Props/C11_frag_examples.v']
     model_targets = ['theories/Aml/RunC11.vo', 'theories/Aml/C11Witness.vo']
     pkg = 'device/acpi/aml'
     harness = [os.path.join(H, 'zz_verif_c11_test.go'), os.path.join(H, 'zz_verif_amlcommon_test.go')]
@@ -60,7 +60,8 @@ class C11(flow.Spec):
     partial = ['C11_lex_roundtrip_* are FULL (PkgLength in all four widths, numbers, strings, every name form, every opcode of the generated maps)',
                'C11_full_parse_encode (the full statement, Props/C11.v) is NOT proved and is in fact FALSE for the current parser: '
                'C11_parse_encode_refuted exhibits one well-formed program per known finding on which the faithful model rejects the table or '
-               'builds another namespace. No parse_encode_partial over a grammar fragment is proved: outside the lexical level the statement '
+               'builds another namespace. C11_parse_encode_partial (Props/C11_frag.v) PROVES the statement for fragment F0 (one table, any number of '
+               'Name(<single NameSeg>, <integer constant>) declarations); outside that fragment and the lexical level the statement '
                'is TESTED, not proved - by the correspondence (Python encoder = Coq encode, Python ns = Coq ns, wf_program accepts every generated '
                'program, model parser = real parser incl. the Coq namespace view = the harness view) and by the monitor on the real parser',
                'productions inside the tested fragment: DefScope (incl. Scope(\\)), Device, Processor, PowerRes, ThermalZone, Method (0-7 args, nested names), Name, '
